@@ -324,6 +324,102 @@ pub fn oracle(c: &Case) -> Verdict {
         .class(format!("victim_inflight{}", on_victim.len().min(4))))
 }
 
+// ------------------------------------------------------------------ peer that stops reading
+
+/// The node keeps its sockets open but stops reading: requests back up in the socket buffers and then in the
+/// driver's own queue. Only the keep-alive can notice.
+#[derive(Debug, Clone, Serialize, Deserialize)]
+pub struct DeafCase {
+    pub requests: u8,
+    /// size of each request, KiB (padding in the statement text)
+    pub kib_each: u16,
+    pub idempotent: bool,
+    /// requests launched (and answered) before the node goes deaf
+    pub warmup: u8,
+}
+
+pub fn deaf_oracle(c: &DeafCase) -> Verdict {
+    let spec = EnvSpec {
+        nodes: simple_nodes(2, None, false),
+        configure: Box::new(move |b| b.pool_size(PoolSize::PerHost(NonZeroUsize::new(1).unwrap())).keepalive_interval(Duration::from_millis(100)).keepalive_timeout(Duration::from_millis(200))),
+        ..Default::default()
+    };
+    let env = build_env(&spec, hash_of(&format!("{c:?}"))).map_err(|m| bad("harness_env", m))?;
+    env.mock.set_frame_logging(false);
+    env.mock.set_brain(Arc::new(move |_ctx, frame| match &frame.body {
+        ReqBody::Query { text, .. } => match marker_of(text) {
+            Some(m) => Action::Reply(marker_rows(&m)),
+            None => Action::Default,
+        },
+        _ => Action::Default,
+    }));
+    let session = Arc::clone(&env.session);
+    let mock = &env.mock;
+    let pad = "x".repeat(c.kib_each as usize * 1024);
+    let n = c.requests as usize;
+    let r = env.rt.block_on(async {
+        for _ in 0..c.warmup {
+            let m = new_marker();
+            session.query_unpaged(format!("SELECT m FROM ks.t {m}"), ()).await.map_err(|e| format!("warm-up request failed: {e}"))?;
+        }
+        let deafened = mock.deafen_node(0);
+        if deafened == 0 {
+            return Err("no connection to node 0 to deafen".to_string());
+        }
+        let mut handles = vec![];
+        for _ in 0..n {
+            let session = Arc::clone(&session);
+            let m = new_marker();
+            let mut s = Statement::new(format!("SELECT m FROM ks.t {m} /*{pad}*/"));
+            s.set_is_idempotent(c.idempotent);
+            handles.push((m, tokio::spawn(async move { session.query_unpaged(s, ()).await.map(|r| r.into_rows_result().ok().and_then(|rr| rr.first_row::<(String,)>().ok()).map(|r| r.0)).map_err(|e| e.to_string()) })));
+        }
+        let deadline = Instant::now() + D;
+        let mut hung = 0usize;
+        let mut failed = 0usize;
+        let mut wrong = None;
+        for (m, h) in handles {
+            let left = deadline.saturating_duration_since(Instant::now()).max(Duration::from_millis(1));
+            match tokio::time::timeout(left, h).await {
+                Ok(Ok(Ok(Some(got)))) if got == m => {}
+                Ok(Ok(Ok(got))) => wrong = Some(format!("caller of {m} got {got:?}")),
+                Ok(Ok(Err(_))) => failed += 1,
+                Ok(Err(e)) => return Err(format!("caller task failed: {e}")),
+                Err(_) => hung += 1,
+            }
+        }
+        // the session recovers: a small follow-up request succeeds within D (it may first meet the dying connection)
+        let follow_deadline = Instant::now() + D;
+        let mut follow_ok = false;
+        while Instant::now() < follow_deadline {
+            let m = new_marker();
+            match tokio::time::timeout(D, session.query_unpaged(format!("SELECT m FROM ks.t {m}"), ())).await {
+                Ok(Ok(_)) => {
+                    follow_ok = true;
+                    break;
+                }
+                Ok(Err(_)) => tokio::time::sleep(Duration::from_millis(50)).await,
+                Err(_) => break,
+            }
+        }
+        Ok((deafened, hung, failed, wrong, follow_ok))
+    });
+    let (deafened, hung, failed, wrong, follow_ok) = r.map_err(|e| bad("harness_e2e", e))?;
+    vassert_eq!(hung, 0, "caller_hangs", "{hung} of {n} requests of {} KiB each did not complete within {D:?} after node 0 stopped reading on its {deafened} connection(s) (keep-alive 100 ms / 200 ms)", c.kib_each);
+    if let Some(w) = wrong {
+        return Err(bad("wrong_response", w));
+    }
+    vassert!(follow_ok, "session_not_working", "no follow-up request succeeded within {D:?}");
+    let total_kib = n * c.kib_each as usize;
+    Ok(CaseInfo::new(total_kib >= 24 * 1024).class_if(total_kib >= 24 * 1024, "backlog_beyond_socket_buffers").class_if(failed > 0, "some_failed").class_if(c.idempotent, "idempotent"))
+}
+
+pub fn deaf_case() -> BoxedStrategy<DeafCase> {
+    (prop_oneof![1 => 1u8..8, 3 => 24u8..64], prop_oneof![1 => 1u16..64, 3 => 512u16..=1024], any::<bool>(), 0u8..3)
+        .prop_map(|(requests, kib_each, idempotent, warmup)| DeafCase { requests, kib_each, idempotent, warmup })
+        .boxed()
+}
+
 // ------------------------------------------------------------------ saturated connection
 
 #[derive(Debug, Clone, Serialize, Deserialize)]
@@ -518,14 +614,16 @@ pub fn case() -> BoxedStrategy<Case> {
 }
 
 pub fn run(ctx: &Ctx, rep: &mut Report) {
-    rep.rule = "Cases: 1..8 requests in flight (query / execute / batch, idempotent or not) on a 2-node mock cluster with one connection per node; the node holding most of them answers j of them completely and then fails: FIN or RST after writing a prefix of the next response frame (offset anywhere in the frame, biased to the 9 header bytes, 0 = between frames), a garbage header, a header with version 0x03/0x85/0x04/0x00, a complete frame on a stream nobody waits for, or a silent stall with keep-alive 100 ms / 200 ms; the fault fires after all requests arrived or after the first 1..3. Oracle: every caller completes within 10 s; a caller that gets rows gets its own marker; requests whose response was completely written succeed; a non-idempotent request outstanding on the dead connection fails and no second frame for it appears anywhere; an idempotent one may succeed only through a second frame; a follow-up request succeeds and the node is reconnected within 10 s. submit_race: 4..16 callers submit requests in a loop (session without client-side timeout) while all 1..8 connections of the node are torn down again and again (FIN / RST): every caller must come back. saturated: the same with all 32 768 stream ids of a connection in flight (so that the driver's own keep-alive cannot obtain a stream id) under FIN / RST / silent stall. Non-trivial = >= 2 requests in flight on the dying connection and the cut strictly inside a frame.".into();
+    rep.rule = "Cases: 1..8 requests in flight (query / execute / batch, idempotent or not) on a 2-node mock cluster with one connection per node; the node holding most of them answers j of them completely and then fails: FIN or RST after writing a prefix of the next response frame (offset anywhere in the frame, biased to the 9 header bytes, 0 = between frames), a garbage header, a header with version 0x03/0x85/0x04/0x00, a complete frame on a stream nobody waits for, or a silent stall with keep-alive 100 ms / 200 ms; the fault fires after all requests arrived or after the first 1..3. Oracle: every caller completes within 10 s; a caller that gets rows gets its own marker; requests whose response was completely written succeed; a non-idempotent request outstanding on the dead connection fails and no second frame for it appears anywhere; an idempotent one may succeed only through a second frame; a follow-up request succeeds and the node is reconnected within 10 s. submit_race: 4..16 callers submit requests in a loop (session without client-side timeout) while all 1..8 connections of the node are torn down again and again (FIN / RST): every caller must come back. deaf_peer: node 0 stops reading on all its open connections (sockets stay open) and 1..63 requests of 1..1024 KiB each are launched, so that up to 60 MiB back up in the socket buffers and the driver's queue; every caller must complete within 10 s and the session must serve a follow-up request. saturated: the same with all 32 768 stream ids of a connection in flight (so that the driver's own keep-alive cannot obtain a stream id) under FIN / RST / silent stall. Non-trivial = >= 2 requests in flight on the dying connection and the cut strictly inside a frame.".into();
     rep.trusted_base = vec!["mock cluster (vkit::mock, reference codec), real loopback TCP".into()];
     rep.assumptions = vec![
         "liveness is decided as completion within 10 s (normal: milliseconds; keep-alive case: < 1 s)".into(),
         "scheduling inside the driver's router task is whatever tokio does (sampled, not enumerated)".into(),
     ];
     if let Some((check, case_v)) = &ctx.replay {
-        if check == "submit_race" {
+        if check == "deaf_peer" {
+            replay_case::<DeafCase, _>(rep, check, case_v, deaf_oracle);
+        } else if check == "submit_race" {
             replay_case::<RaceCase, _>(rep, check, case_v, submit_race_oracle);
         } else if check == "saturated" {
             replay_case::<SatCase, _>(rep, check, case_v, saturated_oracle);
@@ -535,6 +633,8 @@ pub fn run(ctx: &Ctx, rep: &mut Report) {
         return;
     }
     run_prop_par(rep, "faults", ctx.tier.pick(480, 40_000), 8, case, oracle);
+    // the node stops reading while megabytes of requests are on their way to it
+    run_prop_par(rep, "deaf_peer", ctx.tier.pick(12, 400), 4, deaf_case, deaf_oracle);
     // all 32 768 stream ids of the connection in flight when the fault strikes
     let mut st = Stats::default();
     let mut fails = vec![];
